@@ -60,7 +60,7 @@ def spawn_inv(sp):
 
 def api_spawn(b):
     sp, kind = spawn_shape(b, name='self', loop=True, defaults=True)
-    b.ghost('R', '')
+    b.ghost('R', b'' if (kind == 'b' and hasattr(b, 'source')) else '')
     b.ghost('clk', b.real('clk0'))
     return sp, kind
 
